@@ -26,7 +26,20 @@ class GeneratorWrapper:
         return getattr(self._generator, name)
 
     def throw(self, *args) -> Any:
-        return self._generator.throw(*args)
+        try:
+            returned_value = self._generator.throw(*args)
+        except StopIteration as ex:
+            assert_value_matches_type(value=ex.value,
+                                      type_=self._return_type,
+                                      type_vars=self._type_vars,
+                                      err=self._err)
+            raise ex
+
+        assert_value_matches_type(value=returned_value,
+                                  type_=self._yield_type,
+                                  type_vars=self._type_vars,
+                                  err=self._err)
+        return returned_value
 
     def close(self) -> None:
         self._generator.close()
